@@ -217,6 +217,11 @@ def unmarshal_heaps(ex, a):
 
 def static_call(ex, st, frame, ins, callee, args):
     m = ex.m
+    tc = getattr(ex.topframe, 'contract', None)
+    if tc is not None and tc.calls is not None and not any(callee == c or callee.startswith(c + '[') or short_callee(callee) == c for c in tc.calls):
+        # `calls`: the library functions this function may use (an effect contract); anything else is a violation
+        ex.oblige(st, frame, 'calls', ex.site_label(frame, 'libcall', ins), z3.BoolVal(False), tuple(tc.props), ins.get('line', 0),
+                  'call of %s, which the contract does not list' % callee)
     h = TABLE.get(callee)
     if h is None:
         for pat, hh in PREFIX_TABLE:
